@@ -1853,7 +1853,8 @@ pub fn type_check_module(
         if !missing_function_members.is_empty() {
           error_set.report_missing_class_member_definition_error(
             toplevel.name().loc,
-            missing_function_members.iter().copied().collect(),
+            // Sorted, so that the message does not depend on hash iteration order.
+            missing_function_members.iter().copied().sorted().collect(),
           );
         }
         local_cx.write(c.loc, Arc::new(Type::Nominal(nominal_type)));
